@@ -310,6 +310,77 @@ def r32(ctx, fx, R):
         ctx.finding(rid, k + "|shape", "evaluate_expression does not evaluate (bin.lhs, bin.rhs) and apply the operator to them in that order", ev.where)
 
 
+def r36(ctx, fx, R):
+    rid = ctx.rule("R3.6", "the value of a binary expression is what the operator table returns: in the BinaryExpression arm of evaluate_expression no `Ok(..)` carries "
+                   "the value of an operand (lhs / rhs or a part of them) that did not pass through BinaryOp::apply_i64 / try_apply_str — e.g. a short-circuit that "
+                   "hands back the left operand makes `4 || 0` evaluate to 4")
+    ev = fx.fn("mos_core::codegen::evaluator::Evaluator::<'a>::evaluate_expression")
+    if ev is None:
+        ctx.fail_closed(rid, "Evaluator::evaluate_expression not found")
+        return
+    arm = None
+    for n in lib.hwalk(ev.hir["body"]):
+        if n.get("k") == "match":
+            for a in n["arms"]:
+                pk = lib.pat_key(a["pat"])
+                if isinstance(pk, str) and pk.split("(")[0].endswith("Expression::BinaryExpression"):
+                    arm = a
+            if arm:
+                break
+    if arm is None:
+        ctx.fail_closed(rid, "BinaryExpression arm not found")
+        return
+    APPLY = ("BinaryOp::apply_i64", "BinaryOp::try_apply_str")
+
+    def has_apply(e):
+        return any(True for x, p in lib.hir_calls(e) if p and "BinaryOp" in p and p.endswith(("::apply_i64", "::try_apply_str")))
+
+    def locals_of(e):
+        return {lib.hpath(x) for x in lib.hwalk(e) if x.get("k") == "path" and (x.get("res") or {}).get("dk") == "Local"}
+
+    def binds(pat):
+        return {q["name"] for q in lib.hwalk(pat) if q.get("k") == "bind"}
+    operand = set()
+    result = set()
+    # fixpoint over lets / matches / if-lets in source order (shadowing inside the number arm keeps the names operand names, which is what we want)
+    for _ in range(3):
+        for n in lib.hwalk(arm["body"]):
+            if n.get("k") == "let" and "init" in n:
+                if has_apply(n["init"]):
+                    result |= binds(n["pat"])
+                elif any(True for x, p in lib.hir_calls(n["init"], "Evaluator::evaluate_expression")) or (locals_of(n["init"]) & operand):
+                    operand |= binds(n["pat"])
+            if n.get("k") == "match":
+                if has_apply(n["scrut"]):
+                    for a in n["arms"]:
+                        result |= binds(a["pat"])
+                elif locals_of(n["scrut"]) & operand:
+                    for a in n["arms"]:
+                        operand |= binds(a["pat"])
+            if n.get("k") == "iflet" or (n.get("k") == "if" and lib.strip(n.get("cond", {})).get("k") == "let"):
+                c = lib.strip(n.get("cond", {}))
+                if c.get("k") == "let" and "init" in c:
+                    if has_apply(c["init"]):
+                        result |= binds(c["pat"])
+                    elif locals_of(c["init"]) & operand:
+                        operand |= binds(c["pat"])
+    operand -= result
+    oks = [x for x, p in lib.hir_calls(arm["body"]) if p and lib.pm(p, "Result::Ok")]
+    ctx.inst(rid, "evaluate_expression|binary-value", sample={"ok_sites": len(oks), "operand_names": sorted(operand), "operator_results": sorted(result)})
+    if not oks or not result:
+        ctx.fail_closed(rid, "no Ok(..) site or no operator application found in the BinaryExpression arm")
+        return
+    bad = 0
+    for x in oks:
+        arg = lib.hargs(x)[0]
+        used = locals_of(arg)
+        if used & operand and not has_apply(arg):
+            bad += 1
+            ctx.finding(rid, "evaluate_expression|binary-value|operand-returned#%d" % bad,
+                        "a binary expression can evaluate to the value of its operand `%s` without the operator having been applied (comparisons and &&/|| must "
+                        "yield 0 or 1; every operator must go through the operator table)" % sorted(used & operand)[0], "%s:%s" % (ev.file, x.get("ln")))
+
+
 def r35(ctx, fx, R):
     rid = ctx.rule("R3.5", "`<`→LowByte→val & 255, `>`→HighByte→(val >> 8) & 255; `!`→NOT (0→1, else 0), `-`→NEG (negate); `$`→Hex→16, `%`→Bin→2, none→Dec→10; "
                    "true→1, false→0; .byte/.word/.dword ↔ Byte/Word/Dword ↔ u8/u16/u32 little-endian; ascii/petscii/petscreen ↔ encoder arms, default ascii; "
@@ -443,9 +514,11 @@ def r35(ctx, fx, R):
                             ok = True
         if not ok:
             ctx.finding(rid, k, "unary `-` must negate the factor's value", ev.where)
-        # order: NOT before NEG
-        if nots and negs and nots[0].get("ln", 0) > negs[0].get("ln", 0):
-            ctx.finding(rid, "%s|order" % ev.path, "`!` must be applied before `-` (they are written `!-x`)", ev.where)
+        # order: the grammar is `!` `-` factor (checked below), so `!-x` is !(-x): the negation — the inner operator — is applied first
+        ctx.inst(rid, "%s|order" % ev.path)
+        if nots and negs and nots[0].get("ln", 0) < negs[0].get("ln", 0):
+            ctx.finding(rid, "%s|order" % ev.path, "`!-x` is written `!` `-` x, so it means !(-x): the negation must be applied before the logical not "
+                        "(otherwise `!-0` evaluates to -1 instead of 1)", ev.where)
     # --- radix
     nf = fx.fn("mos_core::parser::number")
     ft = fx.fn("mos_core::parser::ast::Number::from_type")
@@ -656,6 +729,7 @@ def run(ctx):
     fx = ctx.facts
     R = ref()
     r31_33_34(ctx, fx, R)
+    r36(ctx, fx, R)
     r32(ctx, fx, R)
     r35(ctx, fx, R)
     ctx.not_decided("numeric results of the underlying i64 operations (rustc's), PETSCII conversion tables, string interpolation values, "
